@@ -55,8 +55,8 @@ ValTable ==
      "10.0.0.1"   :> Val("ip", V4B, 0, "")
   @@ "10.200.0.1" :> Val("ip", V4A, 0, "")
   @@ "2001::1"    :> Val("ip", V6P, 0, "")
-  @@ "10.0.0.0/8" :> Val("net", <<10, 0, 0, 0>>, 8, "")
-  @@ "2001::/16"  :> Val("net", <<32, 1>> \o Z12 \o <<0, 0>>, 16, "")
+  @@ "192.168.0.0/16" :> Val("net", <<192, 168, 0, 0>>, 16, "")
+  @@ "ff02::/16"  :> Val("net", <<255, 2>> \o Z12 \o <<0, 0>>, 16, "")
   @@ "80"         :> Val("num", <<>>, 80, "")
   @@ "443"        :> Val("num", <<>>, 443, "")
   @@ "256"        :> Val("num", <<>>, 256, "")
@@ -254,7 +254,7 @@ First == Normalise(txt0)     \* reading of the user's text (with SharedWhitespac
 Documented(x) == [i \in 1..Len(x) |-> BaseOf(x[i].s)]
 
 AcceptIffWellFormed ==
-  (pc \in {"store", "again", "done"} /\ round = 1) =>
+  (pc = "store" /\ round = 1) =>
      /\ (WellFormed(Documented(txt0)) => verdict = "accepted")
      /\ (Class(Documented(txt0)) = 0 => verdict = "rejected")
 \* the canonical form, prepared again, is accepted, means what the text meant, and does not change
